@@ -5,7 +5,7 @@
    Every statement quantifies over ALL byte strings (lists of Z in 0..255), all bit strings,
    all valid derived tables. *)
 From Coq Require Import List ZArith Bool.
-From LJT Require Import gen.GenLimits model.Huff model.DMarkers
+From LJT Require Import gen.GenLimits model.Huff model.DMarkers model.DFastPath proofs.DFastPathProofs
   proofs.DMarkersProofs proofs.DMarkersScanProofs proofs.DMarkersBlockProofs proofs.DMarkersFastProofs proofs.DMarkersTop.
 Import ListNotations.
 Local Open Scope Z_scope.
@@ -117,6 +117,28 @@ Theorem C01_fast_path_threshold :
   2 * ((L_DCTSIZE2 * 32) / 8) <= L_BUFSIZE.
 Proof. exact (conj block_bits_bound_ fast_path_threshold_). Qed.
 Print Assumptions C01_fast_path_threshold.
+
+(* (4c) the UNCHECKED fast path itself (byte-level model of GET_BYTE with FF/00 and marker back-out,
+   FILL_BIT_BUFFER_FAST's 6-byte prefetch, HUFF_DECODE_FAST, decode_mcu_fast): whenever decode_mcu may take
+   it (>= BUFSIZE * blocks_in_MCU bytes available), for EVERY byte content, every valid table set and every
+   register state the MCU is decoded without the register running dry or overflowing 64 bits, and every
+   dereferenced index -- incl. the look-ahead byte and the prefetch -- is inside the buffer. *)
+Theorem C01_fast_path_safe :
+  (forall (tbls : list (dtbl * dtbl)) (src : list Z) (bits0 : list bool),
+     Forall tbl_pair_ok tbls -> (1 <= length tbls)%nat -> (length bits0 <= 64)%nat ->
+     L_BUFSIZE * Z.of_nat (length tbls) <= Z.of_nat (length src) ->
+     exists out s', decode_mcu_fast tbls (fstate0 src bits0) [] = Some (out, s') /\
+                    Forall (fun i => 0 <= i < Z.of_nat (length src)) (f_reads s') /\
+                    0 <= f_pos s' <= Z.of_nat (length src) /\ (length (f_bits s') <= 64)%nat) /\
+  (forall dbits dvals abits avals dct act,
+     htbl_ok (dbits, dvals) -> htbl_ok (abits, avals) ->
+     make_d_derived dbits dvals true 15 = Some dct -> make_d_derived abits avals false 15 = Some act ->
+     tbl_pair_ok (dct, act)).
+Proof. exact (conj fast_path_safe_ derived_pair_ok). Qed.
+Print Assumptions C01_fast_path_safe.
+
+Example C01_ex_fast_path : ex_fast_check = true.
+Proof. exact ex_fast_check_true. Qed.
 
 (* every per-datastream state member of the marker reader and of the input controller (inventories
    read from jpegint.h / jdmarker.c / jdinput.c) is assigned by reset_marker_reader /
